@@ -240,11 +240,11 @@ func (e *e2eEnv) dial(c E2ECase, bound time.Duration) (*varlink.Connection, *Pro
 	case "pipe":
 		sc := e.fake.Connect()
 		if !c.Proxy {
-			return varlink.VerifNewConnection(sc), nil, nil
+			return varlink.VerifNewConnection(sockLikePipe{sc}), nil, nil
 		}
 		c1, c2 := net.Pipe()
 		p := startProxy(c2, sc, c.CutsC2S, c.CutsS2C)
-		return varlink.VerifNewConnection(c1), p, nil
+		return varlink.VerifNewConnection(sockLikePipe{c1}), p, nil
 	case "bridge":
 		conn, err := varlink.NewBridgeWithStderr(BridgeCommand(e.sockPath), io.Discard)
 		if err != nil {
@@ -628,6 +628,11 @@ func ExecE2E(c E2ECase, bound time.Duration) (*E2EOutcome, error) {
 				}
 				verr = fmt.Errorf("%sSend failed: %v", pre, serr)
 				break
+			}
+			if c.Transport == "bridge" && !alive {
+				// a slow consumer: the handler ends the connection after its replies, so the bridge process is gone
+				// before the client reads them; what was written before must still be delivered
+				time.Sleep(300 * time.Millisecond)
 			}
 			for k, e := range myExp {
 				if verr = recvOne(receive, e, k); verr != nil {
